@@ -52,3 +52,17 @@ _p("C12", assume=["bounded time = max(30 s close timeout, pingInterval+pingTimeo
 _p("C16", assume=["a coding listed with q=0 is counted in the evidence, not flagged (weakest reading of 'names')"])
 _p("C17", assume=["preflight requests are exercised by the C05 admission scenarios"])
 _p("C18", assume=["a deadlock is a task waiting for a lock or Once it already holds, reported by simrt with its stack"])
+
+TIMER_RULE = ("scenario i = GenTimers(splitmix64(VERIF_SEED,i)): 1-5 timers (timeout/interval, period 1-50 ms), 2-6 tasks issuing "
+              "create/refresh/stop/clear at instants on a grid around the due instants (before, exactly at, after; concurrent duplicates), "
+              "statement-level pre-emption inside utils/timer.go; distinct by schedule+history hash")
+_p("C19", quick=40, thorough=900, rule=TIMER_RULE, quick_runs=40000,
+   real=["utils/timer.go (instrumented)", "Go runtime timers and channels"], stubs=["the clock (testing/synctest)"],
+   assume=["refresh after a cancellation is outside the statement and not judged", "a call at exactly the due instant may go either way unless the cancellation had already returned (event order)"])
+CONT_RULE = ("scenario i = GenCont(splitmix64(VERIF_SEED,i)): one of {map, slice, set} concurrent histories (2-8 tasks, <=3 keys, unique values, <=28 ops) "
+             "checked with porcupine against sequential models; emitter concurrent histories with an interval-order oracle; Yeast/GenerateId from "
+             "several tasks inside one virtual millisecond; single-task contract sequences (aliasing, invalid indices, nil listeners) - the last kind has "
+             "no schedule in it and is seeded model-based generation, claimed as such")
+_p("C20", quick=40, thorough=900, rule=CONT_RULE, quick_runs=40000,
+   real=["types/map.go, types/slice.go, types/set.go, types/events.go, utils/yeast.go, utils/base64id.go (instrumented)"], stubs=["none"],
+   assume=["porcupine 'Unknown' (timeout) is counted as inconclusive, never reported", "listeners are distinct function literals (the emitter identifies functions by code pointer)"])
